@@ -1,12 +1,12 @@
 (** C08 - Partitioning heuristics meet their proven worst-case guarantees.
     PROVED for all inputs: greedy (LPT) largest sum <= (4/3 - 1/(3k)) OPT (Graham's bound, full statement: lpt_ratio_43);
     the gap largest - smallest <= largest item for greedy, Karmarkar-Karp and round-robin; round-robin's sums are non-increasing in
-    bin index and its cardinalities differ by at most one; weaker constants: KK largest <= (2 - 1/k) OPT, multifit largest <= 2 OPT,
-    greedy smallest >= OPTmin - largest item.
+    bin index and its cardinalities differ by at most one; weaker constants for every k: KK largest <= (3/2 - 1/(2k)) OPT, multifit largest <= 2 OPT,
+    greedy smallest >= k/(2k-1) OPTmin; the sharp KK and greedy-smallest bounds for 1 and 2 bins.
     NOT proved (research-level case analyses, DESIGN section 8; tested against the verified oracle opt_value and planted optima):
     KK 4/3 - 1/(3k); greedy smallest >= (3k-1)/(4k-2) OPTmin; multifit 1.22 + 2^-iterations.
     Statements only; proofs in Proofs/{GreedyProofs,KKProofs,CKKOptimal,RatioProofs,MultifitProofs,OracleSpec}.v. *)
-From Prtpy Require Import Base.Prelude Model.Binner Model.Objectives Model.Greedy Model.KK Model.Multifit Spec.Partition Oracle.Reach Proofs.GreedyProofs Proofs.KKProofs Proofs.CKKOptimal Proofs.RatioProofs Proofs.MultifitProofs Proofs.OracleSpec.
+From Prtpy Require Import Base.Prelude Model.Binner Model.Objectives Model.Greedy Model.KK Model.Multifit Spec.Partition Oracle.Reach Proofs.GreedyProofs Proofs.KKProofs Proofs.CKKOptimal Proofs.RatioProofs Proofs.MultifitProofs Proofs.OracleSpec Proofs.KKRatioProofs Proofs.LPTMinProofs.
 
 (** greedy: 3k * largest <= (4k - 1) * OPT, i.e. largest <= (4/3 - 1/(3k)) OPT *)
 Theorem C08_lpt_ratio_43 :
@@ -71,18 +71,6 @@ Theorem C08_rr_cardinality :
 Proof. exact @rr_cardinality. Qed.
 Print Assumptions C08_rr_cardinality.
 
-(** PARTIAL (weaker constant): KK largest <= (2 - 1/k) OPT *)
-Theorem C08_kk_ratio_2_partial :
-  forall (A : Type) (valueof : A -> Z) (k : nat) (items : list A) (b : bins A) (opt : Z),
-  (1 <= k)%nat ->
-  items <> [] ->
-  Forall (fun x : A => 0 <= valueof x) items ->
-  kk valueof true k items = Ok b ->
-  Opt MinLargest k (map valueof items) opt ->
-  Z.of_nat k * zmax (sums b) <= (2 * Z.of_nat k - 1) * opt.
-Proof. exact @kk_ratio_2. Qed.
-Print Assumptions C08_kk_ratio_2_partial.
-
 (** PARTIAL (weaker constant): multifit largest <= 2 OPT *)
 Theorem C08_multifit_ratio_2_partial :
   forall (A : Type) (valueof : A -> Z) (it k : nat) (items : list A) (b : bins A) (opt : Z),
@@ -104,6 +92,51 @@ Theorem C08_lpt_min_partial :
   - v - zmax (map valueof items) <= zmin (sums (greedy valueof keep k items)).
 Proof. exact @lpt_min_partial. Qed.
 Print Assumptions C08_lpt_min_partial.
+
+(** PARTIAL (weaker constant, every k): KK largest <= (3/2 - 1/(2k)) OPT *)
+Theorem C08_kk_ratio_32_partial :
+  forall (A : Type) (valueof : A -> Z) (k : nat) (items : list A) (b : bins A) (opt : Z),
+  (1 <= k)%nat ->
+  items <> [] ->
+  Forall (fun x : A => 0 <= valueof x) items ->
+  kk valueof true k items = Ok b ->
+  Opt MinLargest k (map valueof items) opt ->
+  2 * Z.of_nat k * zmax (sums b) <= (3 * Z.of_nat k - 1) * opt.
+Proof. exact @kk_ratio_32_partial. Qed.
+Print Assumptions C08_kk_ratio_32_partial.
+
+(** PARTIAL: the full 4/3 - 1/(3k) bound for KK with 1 or 2 bins (7/6 for two bins, Fischetti and Martello) *)
+Theorem C08_kk_ratio_43_k12_partial :
+  forall (A : Type) (valueof : A -> Z) (k : nat) (items : list A) (b : bins A) (opt : Z),
+  (1 <= k <= 2)%nat ->
+  items <> [] ->
+  Forall (fun x : A => 0 <= valueof x) items ->
+  kk valueof true k items = Ok b ->
+  Opt MinLargest k (map valueof items) opt ->
+  3 * Z.of_nat k * zmax (sums b) <= (4 * Z.of_nat k - 1) * opt.
+Proof. exact @kk_ratio_43_k12_partial. Qed.
+Print Assumptions C08_kk_ratio_43_k12_partial.
+
+(** PARTIAL (weaker constant, every k): greedy smallest >= k/(2k-1) OPTmin *)
+Theorem C08_lpt_min_ratio_half_partial :
+  forall (A : Type) (valueof : A -> Z) (keep : bool) (k : nat) (items : list A) (v : Z),
+  (1 <= k)%nat ->
+  Forall (fun x : A => 0 <= valueof x) items ->
+  Opt MaxSmallest k (map valueof items) v ->
+  Z.of_nat k * - v <= (2 * Z.of_nat k - 1) * zmin (sums (greedy valueof keep k items)).
+Proof. exact @lpt_min_ratio_half_partial. Qed.
+Print Assumptions C08_lpt_min_ratio_half_partial.
+
+(** PARTIAL: the full (3k-1)/(4k-2) bound for greedy's smallest sum with 1 or 2 bins *)
+Theorem C08_lpt_min_ratio_k12_partial :
+  forall (A : Type) (valueof : A -> Z) (keep : bool) (k : nat) (items : list A) (v : Z),
+  (1 <= k <= 2)%nat ->
+  Forall (fun x : A => 0 <= valueof x) items ->
+  Opt MaxSmallest k (map valueof items) v ->
+  (3 * Z.of_nat k - 1) * - v <=
+  (4 * Z.of_nat k - 2) * zmin (sums (greedy valueof keep k items)).
+Proof. exact @lpt_min_ratio_k12_partial. Qed.
+Print Assumptions C08_lpt_min_ratio_k12_partial.
 
 (** the yardstick for the unproved constants: opt_value is the true optimum *)
 Theorem C08_opt_value_oracle :
